@@ -58,7 +58,7 @@ class Worker(threading.Thread):
         self.start()
 
     def tracer(self, frame, event, arg):
-        if frame.f_code is self.code:
+        if self.code is not None and frame.f_code in self.code:
             return self.local
         return None
 
@@ -125,6 +125,28 @@ def code(x):
         if type(v) is type(x) and v == x:
             return k
     return x
+
+
+def settings_codes(zs):
+    """code objects of every function defined in zeep/settings.py (methods of Settings incl. helpers, wrapped generators):
+    the line-level scheduler may switch threads at any source line of any of them"""
+    import types
+    out = set()
+    fn = zs.__file__
+
+    def add(f):
+        f = getattr(f, "__wrapped__", f)
+        c = getattr(f, "__code__", None)
+        if isinstance(c, types.CodeType) and c.co_filename == fn:
+            out.add(c)
+            for k in c.co_consts:
+                if isinstance(k, types.CodeType):
+                    out.add(k)
+    for v in list(vars(zs).values()) + list(vars(zs.Settings).values()):
+        add(v)
+        if isinstance(v, property):
+            add(v.fget)
+    return out
 
 
 class RealRun:
@@ -290,7 +312,7 @@ def run_real(pool, names, case):
     # fine-grained: ops of different threads overlap; the case carries, for each linear position, how
     # many line-steps the *other* thread's next op is advanced before this op completes.
     zs, _ = _zeep()
-    code = getattr(zs.Settings.__call__, "__wrapped__", zs.Settings.__call__).__code__
+    code = settings_codes(zs)
     pending = {}      # thread -> (op) in flight
     rng_steps = case["fine_steps"]
     i = 0
